@@ -49,7 +49,7 @@ type snap struct {
 }
 
 func runC16(c *mon.Ctx) {
-	n := c.Pick(400, 4000)
+	n := c.Pick(400, 25000)
 	for i := int64(0); i < n; i++ {
 		if !c.Mine("alias", i) {
 			continue
@@ -73,7 +73,7 @@ func runC16(c *mon.Ctx) {
 			c.Sample("alias", map[string]any{"stream1_packets": len(s1.Packets), "stream2_packets": len(s2.Packets), "apis": "data, packet"})
 		}
 	}
-	nm := c.Pick(150, 2000)
+	nm := c.Pick(150, 20000)
 	for i := int64(0); i < nm; i++ {
 		if !c.Mine("mux-alias", i) {
 			continue
@@ -321,7 +321,7 @@ func runInstance(in *instance, stamp *int64, stamps *[]int64, yield bool) []stri
 }
 
 func runC16Race(c *mon.Ctx) {
-	reps := c.Pick(5, 50)
+	reps := c.Pick(5, 120)
 	for rep := int64(0); rep < reps; rep++ {
 		for ni, N := range []int{2, 4, 8, 16, 32, 64} {
 			idx := rep*6 + int64(ni)
